@@ -54,7 +54,7 @@ out = ["| change | needs, in order to manifest | quick checks that fire |", "|--
 out.append("")
 out.append("%d changes; %d caught by the quick check of the property they were written against, %d by at least one check; not caught: %s." % (
     total, own, caught_any, ", ".join(misses) or "none"))
-# honest patches (round 6): expected outcome = no check fires
+# honest patches (rounds 6 and 10): expected outcome = no check fires
 hon = []
 for d in sorted(os.listdir(root)):
     mp = os.path.join(root, d, "meta.json")
@@ -74,7 +74,7 @@ for d in sorted(os.listdir(root)):
     hon.append("| %s | %s | %d of 20 quick checks run; fired: %s%s |" % (d, first.replace("|", "\\|"), len(det), ", ".join(fired) or "none", ("; inconclusive: " + ", ".join(inc)) if inc else ""))
 if hon:
     out.append("")
-    out.append("Honest patches (round 6; every check is expected to stay silent):")
+    out.append("Honest patches (rounds 6 and 10; every check is expected to stay silent):")
     out.append("")
     out.append("| patch | what it is (first line of its notes) | outcome |")
     out.append("|---|---|---|")
